@@ -420,13 +420,17 @@ func (sp *ServerPool) handleMirror(spCtx *serverPoolContext) {
 		return
 	}
 
-	resp, err := fnSendRequest(spCtx.stdReq, sp.proxy.client)
-	if err != nil {
-		return
-	}
+	// fire and forget.
+	stdReq := spCtx.stdReq
+	go func() {
+		resp, err := fnSendRequest(stdReq, sp.proxy.client)
+		if err != nil {
+			return
+		}
 
-	io.Copy(io.Discard, resp.Body)
-	resp.Body.Close()
+		io.Copy(io.Discard, resp.Body)
+		resp.Body.Close()
+	}()
 }
 
 func (sp *ServerPool) handle(ctx *context.Context, mirror bool) string {
